@@ -16,7 +16,12 @@ Tie
     `variationalCov`;
   - `dist.variance` against `Clamp.run Gen.C07.varianceClamp` (exact), `>= settings.min_variance`, stddev real;
   - `likelihood.noise` against `NExpr.eval Gen.C07.greaterThanTransform` at Float, `>= constraint lower bound`;
-  - `FixedGaussianNoise` against `Clamp.run Gen.C07.fixedNoiseClamp` (exact), `>= settings.min_fixed_noise`.
+  - `FixedGaussianNoise` against `Clamp.run Gen.C07.fixedNoiseClamp` (exact), `>= settings.min_fixed_noise`;
+  - wave 3 (`props/_c07_wave3.py`): accessor histories (one distribution object under a sequence of floors, every floor-reading
+    accessor), every variational strategy class with all parameters moved away from their initial coincidences (symmetry, exact
+    PSD certificate, closed form through `variationalCov`), ARD / derivative-kernel GPs (diag-mode variance == diagonal of the
+    dense covariance on the training-mode / prior-mode / eager / lazy-joint paths, posterior variance <= prior variance, exact
+    Schur complement), OVC fantasies against the dense pseudo-point conditional; `dist_consistency` for every distribution.
 """
 import concurrent.futures as cf
 import math
@@ -35,7 +40,12 @@ RULE = ("Gram cells = kernel family x hyperparameter point x geometry (random, >
         "two 1e-6 clusters, collinear grid, 1e-6-scaled, 1e6-offset) x (n<=10, d<=3), lengthscales 1e-5..1e6 of unit-spread "
         "data; distinct = distinct (kernel, hyperparameters, geometry, n, d, seed stream); non-trivial = the matrix has "
         "an off-diagonal entry > 1e-12*max (not numerically diagonal) or is a model / clamp / noise case. Model cells = "
-        "exact-GP (kernel x n_train x n_test x noise) and variational (strategy x variational distribution x m) grids")
+        "exact-GP (kernel x n_train x n_test x noise) and variational (strategy x variational distribution x m) grids. Wave 3: "
+        "ARD (unequal lengthscales) copies of every family taking ard_num_dims and multi-output cells at d >= 2, both diag-mode "
+        "paths per cell; accessor histories = one distribution object x sequence of min_variance floors x order of floor-reading "
+        "accessors; variational strategy classes (11 classes x variational distributions) as constructed and with EVERY parameter "
+        "moved, eval and training mode; ARD / derivative-kernel exact GPs on the training-mode, prior-mode, eager and lazy-joint "
+        "paths; OVC fantasies (fast_pred_var off / on)")
 EXHAUSTIVE = False
 TRUSTED = ["translator harness/translate/g4_c07_constants.py (Python ast -> constants, Clamp / NExpr IR)",
            "float64 -> exact rational conversion of every matrix sent to the driver (float.as_integer_ratio)",
@@ -599,7 +609,9 @@ def gram_cases(ctx, drv, tier):
                     rec = {"fam": fam, "hp": hp, "geometry": gname, "n": n, "d": d, "cls": cls, "X": Xk, "K": K, "mode": mode,
                            "symptoms": symptoms, "info": info, "desc": desc}
                     borderline = info.get("rel_min_eig", 0) < -EIG_TOL / 100
-                    want = bool(symptoms) or borderline or (cert_sent < cert_budget and rng.random() < (0.25 if tier == "quick" else 0.5))
+                    # (exact certificates of the > 12-row matrices of the multi-output cells are sampled at a third of the rate)
+                    want = bool(symptoms) or borderline or (cert_sent < cert_budget and
+                                                            rng.random() < (0.25 if tier == "quick" else 0.5) * (0.33 if K.shape[-1] > 12 else 1.0))
                     if want and math.isfinite(info.get("norm", float("nan"))):
                         cert_sent += 1
                         pending.append(rec)
